@@ -107,6 +107,36 @@ Proof.
   - rewrite mread_mwrite_disjoint by (unfold zlen; lia). rewrite <- L. apply mread_mwrite_same.
 Qed.
 
+Lemma venom_no_immutables : forall d codelen runtime (m : mem),
+  zlen runtime = codelen -> mread (mwrite m d runtime) d (Z.to_nat (codelen + 0)) = runtime ++ [].
+Proof.
+  intros d codelen runtime m L. rewrite app_nil_r, Z.add_0_r. unfold zlen in L. rewrite <- L, Nat2Z.id.
+  apply mread_mwrite_same.
+Qed.
+
+Theorem venom_cancun_correct_model : forall src d codelen imm runtime immvals (m : mem),
+  zlen runtime = codelen -> zlen immvals = imm -> mread m src (Z.to_nat imm) = immvals ->
+  venom_epilogue_cancun src d codelen imm runtime m = runtime ++ immvals.
+Proof.
+  intros src d codelen imm runtime immvals m L I M. unfold venom_epilogue_cancun, mcopy.
+  destruct (0 <? imm) eqn:E.
+  - apply (venom_deploy_correct_model src d codelen imm runtime immvals m L I M).
+  - assert (imm = 0) as -> by (unfold zlen in I; lia).
+    destruct immvals; [| discriminate I]. apply venom_no_immutables. exact L.
+Qed.
+
+Theorem venom_precancun_correct_model : forall src d codelen imm runtime immvals (m : mem),
+  zlen runtime = codelen -> zlen immvals = imm -> mread m src (Z.to_nat imm) = immvals ->
+  venom_epilogue_precancun src d codelen imm runtime m = runtime ++ immvals.
+Proof.
+  intros src d codelen imm runtime immvals m L I M. unfold venom_epilogue_precancun, identity_call.
+  destruct (0 <? imm) eqn:E.
+  - rewrite firstn_all2 by (rewrite mread_length; lia).
+    apply (venom_deploy_correct_model src d codelen imm runtime immvals m L I M).
+  - assert (imm = 0) as -> by (unfold zlen in I; lia).
+    destruct immvals; [| discriminate I]. apply venom_no_immutables. exact L.
+Qed.
+
 (* ---------- blueprint stub *)
 Lemma code_at_app_r : forall (p x : list Z) i, 0 <= i -> code_at (p ++ x) (zlen p + i) = code_at x i.
 Proof.
